@@ -189,6 +189,7 @@ impl Oplog {
                     // Remove all trailing partial entries
                     while !partials.is_empty() && partials[partials.len() - 1] {
                         entries.pop();
+                        partials.pop();
                     }
                     // New entries are appended after the ones that were kept
                     outcome.oplog.entries_length = entries.len() as u64;
